@@ -29,6 +29,8 @@ pub fn run_case(kvs: &[Kv], geom: Geom, all_bytes: bool, extra: &[Key]) -> Resul
         let f = Fst::new(&bytes[..]).map_err(|e| format!("{:?}", e))?;
         let m = Map::new(&bytes[..]).map_err(|e| format!("{:?}", e))?;
         let s = Set::new(&bytes[..]).map_err(|e| format!("{:?}", e))?;
+        // a reader pointed at these bytes through map_data (from another map)
+        let m3 = Map::new(other_fst_bytes()).map_err(|e| format!("{:?}", e))?.map_data(|_| &bytes[..]).map_err(|e| format!("map_data: {:?}", e))?;
         let mut n = 0;
         let probes = probes_for(kvs, all_bytes);
         for p in probes.iter().chain(extra.iter()) {
@@ -47,6 +49,9 @@ pub fn run_case(kvs: &[Kv], geom: Geom, all_bytes: bool, extra: &[Key]) -> Resul
             }
             if m.contains_key(p) != want.is_some() {
                 return Err(format!("Map::contains_key({}) wrong", key_str(p)));
+            }
+            if m3.get(p) != want {
+                return Err(format!("Map::get({}) = {:?} on a reader pointed at the bytes through map_data, expected {:?}", key_str(p), m3.get(p), want));
             }
             if s.contains(p) != want.is_some() {
                 return Err(format!("Set::contains({}) wrong", key_str(p)));
